@@ -57,7 +57,8 @@ def _mle_prinz_dense(
                      (X_rs[i] - X[i, j]) *\
                      (X_rs[j] - X[i,j])
 
-                assert c <= 0
+                # c <= 0 holds up to rounding in the running row sums
+                assert c <= 1e-8 * (C[i, j] + C[j, i]) * X_rs[i] * X_rs[j]
 
 #                 /* the new value */
                 if (a == 0):
